@@ -1,6 +1,6 @@
 CONSTANTS
-  Stmts <- Stmts5
-  StmtParams <- Params5
+  Stmts <- Stmts7
+  StmtParams <- Params7
   ManyPairs <- Pairs9
   Data <- DataA
   NumberMode = "conforming"
